@@ -105,9 +105,17 @@ class GraphLeg(object):
                     "strand": draw(st.sampled_from(["+", "-", "."])),
                     "note": draw(st.sampled_from(["", "", "x y"])),
                 })
-            perm = draw(st.permutations(list(range(n))))
+            perm = list(draw(st.permutations(list(range(n)))))
+            split = draw(st.sampled_from([0, 0, 1, 2, n // 2]))
+            if draw(st.integers(0, 3)) == 0:
+                # every feature that names a parent is imported first; the features without Parent (the roots, some of
+                # them named by the first part) arrive later in an update batch that states no relation at all
+                inner = [i for i in perm if nodes[i]["parents"]]
+                roots = [i for i in perm if not nodes[i]["parents"]]
+                if inner and roots:
+                    perm, split = inner + roots, len(inner)
             return {"nodes": nodes, "perm": list(perm), "repeated": draw(st.booleans()),
-                    "file_db": draw(st.booleans()), "split": draw(st.sampled_from([0, 0, 1, 2, n // 2])),
+                    "file_db": draw(st.booleans()), "split": split,
                     "mixed": draw(st.integers(0, 4)) == 0, "tail_sep": draw(st.booleans()),
                     "other_handle": draw(st.integers(0, 2)) == 0}
 
@@ -133,6 +141,8 @@ class GraphLeg(object):
             labels.append("reserved-in-id")
         if case.get("split") and 0 < case["split"] < len(nodes):
             labels.append("tail-through-update")
+            if all(not case["nodes"][j]["parents"] for j in case["perm"][case["split"]:]):
+                labels.append("update-batch-of-roots-only")
         return multi or dp >= 3 or child_first, labels
 
     def check(self, case, ctx):
